@@ -118,6 +118,33 @@ func c09Exec(o c09Op) (dig string) {
 		return sha(digest1(calendar.NewSolar(a[0], a[1], a[2], a[3], a[4], a[5]).GetLunar().Next(a[6])))
 	case "nsolar":
 		return sha(calendar.NewSolar(a[0], a[1], a[2], a[3], a[4], a[5]).ToYmdHms())
+	case "solar":
+		return sha(digest1(calendar.NewSolar(a[0], a[1], a[2], a[3], a[4], a[5])))
+	case "scribble":
+		// a caller appends to / edits the lists it was handed (its own copies, as far as it can tell) and renders the
+		// day; what a fresh object of the same day reports afterwards must not have moved
+		mk := func() string {
+			s := calendar.NewSolar(a[0], a[1], a[2], a[3], a[4], a[5])
+			l := s.GetLunar()
+			return fmt.Sprint(listStrings(s.GetFestivals()), listStrings(s.GetOtherFestivals()), listStrings(l.GetFestivals()), listStrings(l.GetOtherFestivals()),
+				listStrings(l.GetDayYi()), listStrings(l.GetDayJi()), listStrings(l.GetTimeYi()), listStrings(l.GetTimeJi()), listStrings(l.GetDayJiShen()), listStrings(l.GetDayXiongSha()),
+				listStrings(l.GetFoto().GetFestivals()), listStrings(l.GetFoto().GetOtherFestivals()), l.GetTao().GetFestivals().Len(), l.GetPengZuGan(), listStrings(l.GetJieQiList()))
+		}
+		before := mk()
+		s := calendar.NewSolar(a[0], a[1], a[2], a[3], a[4], a[5])
+		l := s.GetLunar()
+		_ = s.ToFullString() + l.ToFullString() + l.GetFoto().ToFullString() + l.GetTao().ToFullString()
+		for _, ls := range []*list.List{s.GetFestivals(), s.GetOtherFestivals(), l.GetFestivals(), l.GetOtherFestivals(), l.GetDayYi(), l.GetDayJi(), l.GetTimeYi(), l.GetTimeJi(),
+			l.GetDayJiShen(), l.GetDayXiongSha(), l.GetFoto().GetFestivals(), l.GetFoto().GetOtherFestivals(), l.GetJieQiList()} {
+			ls.PushBack("(caller's note)")
+			if ls.Len() > 1 {
+				ls.Remove(ls.Front())
+			}
+		}
+		if after := mk(); after != before {
+			return "LEAK: after a caller edited the lists it was handed for this date, a fresh object of the same date reports " + after + ", before " + before
+		}
+		return "no-leak"
 	case "setters":
 		// objects handed out by accessors are modified through their public setters; later queries (on fresh objects)
 		// must be unaffected. The digest is a constant unless something leaked, so it is also history-independent.
@@ -253,8 +280,12 @@ var c09ObjCalls = func() []objCall {
 		{"Next(0)", func(l *calendar.Lunar) string { return digest1(l.Next(0)) }},
 		{"Next(1)", func(l *calendar.Lunar) string { return l.Next(1).String() }},
 		{"Next(-40)", func(l *calendar.Lunar) string { return l.Next(-40).String() }},
-		{"GetNextJieByWholeDay(true)", func(l *calendar.Lunar) string { return fmt.Sprint(l.GetNextJieByWholeDay(true), l.GetNextJieByWholeDay(true).GetSolar().ToYmdHms()) }},
-		{"GetPrevQiByWholeDay(false)", func(l *calendar.Lunar) string { return fmt.Sprint(l.GetPrevQiByWholeDay(false), l.GetPrevQiByWholeDay(false).GetSolar().ToYmdHms()) }},
+		{"GetNextJieByWholeDay(true)", func(l *calendar.Lunar) string {
+			return fmt.Sprint(l.GetNextJieByWholeDay(true), l.GetNextJieByWholeDay(true).GetSolar().ToYmdHms())
+		}},
+		{"GetPrevQiByWholeDay(false)", func(l *calendar.Lunar) string {
+			return fmt.Sprint(l.GetPrevQiByWholeDay(false), l.GetPrevQiByWholeDay(false).GetSolar().ToYmdHms())
+		}},
 		{"Solar.Next(5,true)", func(l *calendar.Lunar) string { return l.GetSolar().Next(5, true).ToYmdHms() }},
 	}
 	// parameterised accessors of the auxiliary objects (one shared SolarMonth, SolarWeek, LunarYear, LunarMonth, LunarTime, Yun)
@@ -269,7 +300,9 @@ var c09ObjCalls = func() []objCall {
 			objCall{fmt.Sprintf("SolarWeek.Next(%d,false)", n), func(l *calendar.Lunar) string { return auxOf(l).week.Next(n, false).String() }},
 			objCall{fmt.Sprintf("SolarMonth.Next(%d)", n), func(l *calendar.Lunar) string { return auxOf(l).month.Next(n).String() }},
 			objCall{fmt.Sprintf("LunarMonth.Next(%d)", n), func(l *calendar.Lunar) string { return fmt.Sprint(auxOf(l).lmon.Next(n)) }},
-			objCall{fmt.Sprintf("LunarYear.Next(%d)", n), func(l *calendar.Lunar) string { return fmt.Sprint(auxOf(l).lyear.Next(n).GetGanZhi(), auxOf(l).lyear.Next(n).GetDayCount()) }})
+			objCall{fmt.Sprintf("LunarYear.Next(%d)", n), func(l *calendar.Lunar) string {
+				return fmt.Sprint(auxOf(l).lyear.Next(n).GetGanZhi(), auxOf(l).lyear.Next(n).GetDayCount())
+			}})
 	}
 	cs = append(cs,
 		objCall{"accessors(SolarWeek)", func(l *calendar.Lunar) string { return digest1(auxOf(l).week) }},
@@ -278,7 +311,9 @@ var c09ObjCalls = func() []objCall {
 		objCall{"accessors(LunarTime)", func(l *calendar.Lunar) string { return digest1(auxOf(l).ltime) }},
 		objCall{"accessors(Yun)", func(l *calendar.Lunar) string { return digest1(auxOf(l).yun) }},
 		objCall{"LunarYear.GetMonth(1)", func(l *calendar.Lunar) string { return fmt.Sprint(auxOf(l).lyear.GetMonth(1)) }},
-		objCall{"LunarYear.GetMonth(-leap)", func(l *calendar.Lunar) string { return fmt.Sprint(auxOf(l).lyear.GetMonth(-auxOf(l).lyear.GetLeapMonth())) }},
+		objCall{"LunarYear.GetMonth(-leap)", func(l *calendar.Lunar) string {
+			return fmt.Sprint(auxOf(l).lyear.GetMonth(-auxOf(l).lyear.GetLeapMonth()))
+		}},
 		objCall{"LunarYear.GetMonthsInYear", func(l *calendar.Lunar) string { return fmt.Sprint(listStrings(auxOf(l).lyear.GetMonthsInYear())) }})
 	for k := 1; k <= 2; k++ {
 		k := k
@@ -387,7 +422,12 @@ func c09Ops(seed int64, n int) (ops []c09Op, hostile []c09Op) {
 		y := c09Years[rng.Intn(len(c09Years))]
 		_, m, d := day(y)
 		h, mi, s := rng.Intn(24), rng.Intn(60), rng.Intn(60)
-		switch rng.Intn(18) {
+		switch rng.Intn(20) {
+		case 18:
+			ops = append(ops, c09Op{K: "solar", A: []int{y, m, d, h, mi, s}})
+		case 19:
+			dd := [][2]int{{12, 25}, {1, 1}, {2, 14}, {5, 10}, {8, 10}, {10, 1}, {5, 1}, {11, 26}}[rng.Intn(8)]
+			ops = append(ops, c09Op{K: "scribble", A: []int{[]int{y, 2001 + rng.Intn(24)}[rng.Intn(2)], dd[0], dd[1] + rng.Intn(3), h, mi, s}})
 		case 17:
 			// winter and summer dates so that nine-nines / dog-day objects exist, holiday dates now and then
 			dd := [][2]int{{12, 25}, {1, 5}, {2, 1}, {7, 20}, {8, 10}, {10, 1}, {5, 1}}[rng.Intn(7)]
@@ -396,7 +436,7 @@ func c09Ops(seed int64, n int) (ops []c09Op, hostile []c09Op) {
 			// delta-T at (and near) the knots of the library's table: days from J2000, in thousandths
 			kn := ShouXingUtil.DT_AT[rng.Intn(len(ShouXingUtil.DT_AT)/5)*5]
 			off := []float64{0, 0, 0, -0.001, 0.001, 3.7}[rng.Intn(6)]
-			ops = append(ops, c09Op{K: "dtt", A: []int{int(math.Round(((kn - 2000) * 365.2425 + off) * 1000))}})
+			ops = append(ops, c09Op{K: "dtt", A: []int{int(math.Round(((kn-2000)*365.2425 + off) * 1000))}})
 		case 16:
 			ops = append(ops, c09Op{K: "astro", A: []int{(rng.Intn(7304000) - 730000*1) * 1000 / 10}})
 		case 14:
@@ -533,9 +573,18 @@ func c09ChildMain(args []string) int {
 		for n, i := range order {
 			c09Salt = seed*977 + int64(idx)*7919 + int64(n)
 			setCur(cur, ops[i].String())
-			res.Events = append(res.Events, c09Event{i, c09Exec(ops[i])})
+			dg := c09Exec(ops[i])
+			res.Events = append(res.Events, c09Event{i, dg})
 			if calendar.VerifCacheLockHeld() {
 				res.LockHeld = append(res.LockHeld, i)
+			}
+			// the same request again straight away: always after a recovered panic (whatever the failed call left
+			// behind is then the state the retry meets), now and then otherwise
+			if strings.HasPrefix(dg, "panic:") || rng.Intn(8) == 0 {
+				res.Events = append(res.Events, c09Event{i, c09Exec(ops[i])})
+				if calendar.VerifCacheLockHeld() {
+					res.LockHeld = append(res.LockHeld, i)
+				}
 			}
 		}
 	case "conc":
@@ -612,7 +661,7 @@ func c09ChildMain(args []string) int {
 					if pv != nil {
 						parts[i] = ms[i].Name + "=panic:" + fmt.Sprint(pv)
 					} else {
-						parts[i] = ms[i].Name + "=" + render(out, 0, nil)
+						parts[i] = ms[i].Name + "=" + render(out, 1, nil)
 					}
 				}
 				digs[g] = strings.Join(parts, ";")
@@ -620,7 +669,7 @@ func c09ChildMain(args []string) int {
 		}
 		close(start)
 		wg.Wait()
-		again := digest1(calendar.NewSolar(y, m, d, hh, mi, ss).GetLunar())
+		again := walkObject(reflect.ValueOf(calendar.NewSolar(y, m, d, hh, mi, ss).GetLunar()), 1, nil)
 		again = strings.TrimSuffix(strings.TrimPrefix(again, "Lunar{"), ";}")
 		for g := 0; g < G; g++ {
 			res.SharedCalls += len(ms)
@@ -628,6 +677,94 @@ func c09ChildMain(args []string) int {
 				res.Shared = append(res.Shared, fmt.Sprintf("first concurrent use: a private Lunar of %04d-%02d-%02d %02d:%02d:%02d walked by goroutine %d differs from a later sequential walk: %s", y, m, d, hh, mi, ss, g, diffDigests(digs[g], again)))
 			}
 		}
+	case "firstslot":
+		// simultaneous first use, made independent of timing: 64 goroutines in 32 pairs; both goroutines of a pair own
+		// private objects of the same moment (built before the start barrier, constructors only) and make the SAME
+		// accessor their very first call after the barrier. Between the barrier and that call a goroutine has taken
+		// no lock, so if the accessor fills package-level state lazily without proper synchronisation the pair's two
+		// accesses are unordered whatever the scheduler does and the race detector reports them. The pairs' windows
+		// of accessors are disjoint, so nobody else touches that state first (the detector remembers only the last
+		// few accesses of a word). Round idx shifts every pair's window by idx: `stride` rounds make every accessor of
+		// every type the first call of some pair. The results are also compared with a later sequential walk.
+		const G = 64
+		res.Goroutines = G
+		rng := rand.New(rand.NewSource(seed*59 + int64(idx)))
+		y := c09Years[rng.Intn(len(c09Years))]
+		_, m, d := c09Day(rng, y)
+		hh, mi, ss := rng.Intn(24), rng.Intn(60), rng.Intn(60)
+		mk := func() []reflect.Value {
+			l := calendar.NewSolar(y, m, d, hh, mi, ss).GetLunar()
+			os := []interface{}{l, l.GetSolar(), l.GetEightChar(), l.GetFoto(), l.GetTao(), l.GetTime(),
+				calendar.NewLunarMonthFromYm(l.GetYear(), l.GetMonth()), calendar.NewLunarYear(l.GetYear()), calendar.NewSolarWeekFromYmd(y, m, d, 1),
+				calendar.NewSolarMonthFromYm(y, m), calendar.NewSolarYearFromYear(y), calendar.NewNineStar((y + d) % 9)}
+			vs := make([]reflect.Value, len(os))
+			for i, o := range os {
+				vs[i] = reflect.ValueOf(o)
+			}
+			return vs
+		}
+		type slot struct {
+			oi int
+			m  reflect.Method
+		}
+		var universe []slot
+		for oi, v := range mk() {
+			for _, mt := range zeroArgMethods(v.Type()) {
+				universe = append(universe, slot{oi, mt})
+			}
+		}
+		stride := (len(universe) + G/2 - 1) / (G / 2)
+		sets := make([][]reflect.Value, G)
+		for g := range sets {
+			sets[g] = mk()
+		}
+		got := make([]map[int]string, G)
+		call := func(vs []reflect.Value, k int) string {
+			s := universe[k]
+			out, pv := callMethod(vs[s.oi], s.m)
+			if pv != nil {
+				return "panic:" + fmt.Sprint(pv)
+			}
+			return render(out, 0, nil)
+		}
+		var wg sync.WaitGroup
+		start := make(chan struct{})
+		for g := 0; g < G; g++ {
+			wg.Add(1)
+			go func(g int) {
+				defer wg.Done()
+				first := (g / 2) * stride
+				mine := map[int]string{}
+				vs := sets[g]
+				<-start
+				for k := 0; k < stride; k++ {
+					i := first + (idx+k)%stride
+					if i < len(universe) {
+						mine[i] = call(vs, i)
+					}
+				}
+				got[g] = mine
+			}(g)
+		}
+		close(start)
+		wg.Wait()
+		seq := mk()
+		again := map[int]string{}
+		for g := 0; g < G; g++ {
+			for k, v := range got[g] {
+				res.SharedCalls++
+				a, ok := again[k]
+				if !ok {
+					a = call(seq, k)
+					again[k] = a
+				}
+				if a != v {
+					res.Shared = append(res.Shared, fmt.Sprintf("first concurrent use: %s.%s on a private object of %04d-%02d-%02d %02d:%02d:%02d returned %.120s to goroutine %d and %.120s to a later sequential caller", typeName(seq[universe[k].oi].Type()), universe[k].m.Name, y, m, d, hh, mi, ss, v, g, a))
+				}
+			}
+		}
+		res.Transitions["universe"] = len(universe)
+		res.Transitions["stride"] = stride
 	case "shared":
 		// one shared object of each type, walked concurrently through all zero-argument accessors
 		const G = 16
@@ -652,6 +789,13 @@ func c09ChildMain(args []string) int {
 			if h := HolidayUtil.GetHoliday("2020-10-01"); h != nil {
 				objs = append(objs, h)
 			}
+			// handed out from the cache, hence the same objects for every caller of the same year
+			lyo := calendar.NewLunarYear(ly)
+			for _, mo := range []*calendar.LunarMonth{lyo.GetMonth(1), lyo.GetMonth(12), lyo.GetMonth(-lyo.GetLeapMonth())} {
+				if mo != nil {
+					objs = append(objs, mo)
+				}
+			}
 			return objs
 		}
 		depthOf := func(o interface{}) int {
@@ -661,19 +805,21 @@ func c09ChildMain(args []string) int {
 			}
 			return 0
 		}
-		setA, objs := build(), build()
-		sol := objs[0].(*calendar.Solar)
-		want := make([]string, len(objs))
+		setA := build()
+		want := make([]string, len(setA))
 		for i, o := range setA {
 			want[i] = sha(walkObject(reflect.ValueOf(o), depthOf(o), nil))
 		}
-		lunA := calendar.NewSolar(y, m, d, hh, mi, ss).GetLunar()
-		lunB := calendar.NewSolar(y, m, d, hh, mi, ss).GetLunar()
 		wantCalls := map[string]string{}
 		for _, c := range c09ObjCalls {
 			wantCalls[c.name] = sha(c.f(calendar.NewSolar(y, m, d, hh, mi, ss).GetLunar()))
 		}
-		_ = lunA
+		// the year and month objects are handed out from the cache: without a reset set B would be the very objects
+		// the sequential reference has just warmed up
+		calendar.VerifResetCache()
+		objs := build()
+		sol := objs[0].(*calendar.Solar)
+		lunB := calendar.NewSolar(y, m, d, hh, mi, ss).GetLunar()
 		var mu sync.Mutex
 		var wg sync.WaitGroup
 		start := make(chan struct{})
@@ -1005,6 +1151,13 @@ func c09Custom(pc *Parent) {
 	for k := 0; k < 2*sharedRounds; k++ {
 		jobs = append(jobs, rr{"firstuse", k}) // cheap: one fresh process, 16 goroutines, one walk each
 	}
+	slotRounds := 16 // 32 first-call slots per round, windows of ceil(universe/32) accessors: that many rounds give every accessor its turn
+	if !quick {
+		slotRounds = 64
+	}
+	for k := 0; k < slotRounds; k++ {
+		jobs = append(jobs, rr{"firstslot", k})
+	}
 	results := make([]c09Run, len(jobs))
 	for i, j := range jobs {
 		wg.Add(1)
@@ -1021,6 +1174,15 @@ func c09Custom(pc *Parent) {
 			handleFail(r)
 			continue
 		}
+		if r.mode == "firstslot" {
+			if u := r.out.Transitions["universe"]; u > 0 {
+				pc.R.Extra["first_call_slot_universe"] = u
+				pc.R.Extra["first_call_slot_rounds_needed"] = r.out.Transitions["stride"]
+				delete(r.out.Transitions, "universe")
+				delete(r.out.Transitions, "stride")
+			}
+			pc.R.Counters["first-call-slots"] += 32
+		}
 		if r.mode == "conc" {
 			judge("schedule", r.idx, r.out.Events)
 			for k, v := range r.out.Transitions {
@@ -1032,7 +1194,11 @@ func c09Custom(pc *Parent) {
 			pc.R.Counters["concurrent-events"] += int64(len(r.out.Events))
 		} else {
 			for _, s := range r.out.Shared {
-				pc.Violate("shared-digest", s, s, nil, nil)
+				key := s
+				if i := strings.Index(s, " on a private"); i > 0 {
+					key = s[:i]
+				}
+				pc.Violate("shared-digest", key, s, nil, nil)
 			}
 			pc.R.Evals += int64(r.out.SharedCalls)
 			pc.R.Distinct += int64(r.out.SharedCalls / 2 / 16)
